@@ -121,6 +121,11 @@ def run(tier, seed, replay=None):
         ('faces', lambda o: o.pardim == 3, lambda o, q: o.faces()),
         ('corners', lambda o: True, lambda o, q: o.corners()),
         ('split', lambda o: True, lambda o, q: o.split(mid(o)[0], 0)),
+        # split points on the domain boundary are skipped: the pieces are still new objects
+        ('split at end', lambda o: o.bases[0].periodic < 0 and o.bases[0].knots[-1] == o.bases[0].end(), lambda o, q: o.split(o.end(0), 0)),
+        ('split at start', lambda o: o.bases[0].periodic < 0, lambda o, q: o.split(o.start(0), 0)),
+        ('split at both ends', lambda o: o.bases[0].periodic < 0 and o.bases[0].knots[-1] == o.bases[0].end(), lambda o, q: o.split([o.start(0), o.end(0)], 0)),
+        ('split empty list', lambda o: o.bases[0].periodic < 0, lambda o, q: o.split([], 0)),
         ('split list', lambda o: True, lambda o, q: o.split([o.start(0) + (o.end(0) - o.start(0)) * f for f in (0.25, 0.75)], 0)),
         ('lower_order', lambda o: all(b.order >= 3 and b.periodic < 0 for b in o.bases), lambda o, q: o.lower_order(1)),
         ('lower_order 0', lambda o: all(b.periodic < 0 for b in o.bases), lambda o, q: o.lower_order(0)),
